@@ -16,7 +16,7 @@ def num(v):
 def eq(a, b, bitwise=False):
     if not (num(a) and num(b)):
         return False
-    return float(a[1]) == float(b[1]) if bitwise else common.close(a[1], Fraction(float(b[1])))
+    return common.close(a[1], Fraction(float(b[1])), tol=Fraction(1, 10**12)) if bitwise else common.close(a[1], Fraction(float(b[1])))
 
 
 def scramble(group, rng):
